@@ -423,6 +423,26 @@ def _apply(via, kspec, sigs):
             if M.is_raised(w):
                 return w
             k = [float(v) for v in w]
+            if kspec["type"] != "Uniform":
+                # two kernels used in turn: a kernel of the same class and window length but ANOTHER width is asked for
+                # its window in between; the windows of kernels of different widths differ (for every built-in class
+                # but the uniform one), and this kernel's window is the same before and after
+                for f_ in (1.06, 0.95, 1.03):
+                    k2spec = dict(kspec, width=kspec["width"] * f_)
+                    if k2spec["width"] >= 1.0 and _window_len(k2spec) == len(k):
+                        w_other = M.call(_make_kernel(k2spec).toSlidingWindow)
+                        w_again = M.call(_make_kernel(kspec).toSlidingWindow)
+                        M.CTX.monitor("window.depends_on_its_own_kernel_only")
+                        if M.is_raised(w_other) or M.is_raised(w_again):
+                            return w_other if M.is_raised(w_other) else w_again
+                        if [float(v) for v in w_again] != k or \
+                                (len(k) > 1 and [float(v) for v in w_other] == k):
+                            return M.Raised(AssertionError(
+                                "two kernels of class %s used in turn (widths %r and %r, same window length %d): the "
+                                "window of one is handed out for the other (%r / %r / %r)"
+                                % (kspec["type"], kspec["width"], k2spec["width"], len(k), k[:4],
+                                   [float(v) for v in w_other][:4], [float(v) for v in w_again][:4])), "")
+                        break
             if (n + len(k)) % 3 == 0:
                 # aliasing: the caller asked THIS kernel object for its window first and modified the list it got
                 # (to derive weights of its own); the kernel must go on filtering with its own window
